@@ -197,6 +197,19 @@ def run(ctx):
             ctx.counterexample('compiled matcher is mutable', {'pattern': p})
         except AttributeError:
             pass
+        # ... nor deleted: every slot of the matcher and of the object inside it, for fnmatch and glob matchers
+        for obj_name, obj in (('matcher', a), ('matcher._matcher', a._matcher), ('glob matcher', Gm.compile(p, flags=fv)), ('glob matcher._matcher', Gm.compile(p, flags=fv)._matcher)):
+            for slot in type(obj).__slots__:
+                for how, op in (('set', lambda o=obj, sl=slot: setattr(o, sl, None)), ('delete', lambda o=obj, sl=slot: delattr(o, sl))):
+                    evals += 1
+                    before = hash(a)
+                    try:
+                        op()
+                        ctx.counterexample('compiled %s: attribute %s can be %s (matcher objects are immutable)' % (obj_name, slot, 'set' if how == 'set' else 'deleted'),
+                                           {'pattern': p, 'flags': fv, 'object': obj_name, 'attribute': slot, 'operation': how})
+                        break
+                    except AttributeError:
+                        pass
     # ---- matchers that compare equal are interchangeable: same hash, same verdict on every probe --------------------
     import tempfile as _tf
     import shutil as _sh
